@@ -165,6 +165,13 @@ func (h *H) eval(s []byte, origin string) {
 		}
 		if nIdent < len(distinct) {
 			key = "roundtrip:ident-case-collapsed"
+		} else if forwardUnmask(masked, masks) == str {
+			// restoring the masks first-to-last (Replace once / ReplaceAll for identifiers), as the
+			// model does, WOULD have returned s: the real code deviates from that order/semantics.
+			key = "roundtrip:restore-order-deviation"
+			if identPlaceholderInLaterLiteral(ms) {
+				key = "roundtrip:ident-placeholder-inside-later-literal"
+			}
 		}
 		c.Fail(key, fmt.Sprintf("UnmaskStringLiterals(MaskStringLiterals(s)) != s: got %s (masked %s)", q([]byte(um)), q([]byte(masked))), q(s))
 		c.Tag("FAIL " + key)
@@ -179,19 +186,33 @@ func (h *H) eval(s []byte, origin string) {
 	}
 	// ---- monitor 3: comments removed from the masked text vs the comments DuckDB sees there, and
 	// bytes outside comments must survive unchanged.
-	if hc {
-		lm := lSegs([]byte(masked))
+	lm := lSegs([]byte(masked))
+	hasCom := false
+	for _, x := range lm {
+		if x.kind == 'l' || x.kind == 'b' {
+			hasCom = true
+		}
+	}
+	if hc || hasCom {
 		if kS == kLiteralLeft {
 			// a literal survived masking (consequence of a mask-spans disagreement, reported there)
 			c.Tag("strip-skipped:literal-left")
 		} else if exp := stripExpect(lm); sm != exp.String() {
 			key := "strip:" + className[kS]
-			c.Fail(key, fmt.Sprintf("stripSQLComments(%s) = %s; comments per DuckDB lexer %s give %s", q([]byte(masked)), q([]byte(sm)), segsStr(lm), q(exp.Bytes())), q(s))
+			if !hc && hasCom {
+				// the scan → mask → strip sequence of the call sites did not strip at all: the pre-scan
+				// (scanSQLFeatures) reported no comment although DuckDB sees one.
+				key = "strip:comment-not-stripped"
+				if quoteInLiteralBeforeComment(lx) {
+					key = "strip:comment-not-stripped-after-literal-with-quote"
+				}
+			}
+			c.Fail(key, fmt.Sprintf("scanSQLFeatures→hasComments=%v; stripSQLComments(%s) = %s; comments per DuckDB lexer %s give %s", hc, q([]byte(masked)), q([]byte(sm)), segsStr(lm), q(exp.Bytes())), q(s))
 			c.Tag("FAIL " + key)
 		}
 		// composition (validated, not proved): inside both classes the comments removed from the masked
 		// text are exactly the comments DuckDB sees in the original text.
-		if kM == 0 && kS == 0 {
+		if hc && kM == 0 && kS == 0 {
 			cm := func(l []seg) string {
 				var sb strings.Builder
 				for _, x := range l {
@@ -207,6 +228,61 @@ func (h *H) eval(s []byte, origin string) {
 			}
 		}
 	}
+}
+
+// forwardUnmask: the documented restoration — masks in order, first occurrence for string masks,
+// every occurrence for identifier masks (what the Lean model `unmask` does).
+func forwardUnmask(text string, masks []sqlutil.StringMask) string {
+	for _, m := range masks {
+		if m.Identifier {
+			text = strings.ReplaceAll(text, m.Placeholder, m.Original)
+		} else {
+			text = strings.Replace(text, m.Placeholder, m.Original, 1)
+		}
+	}
+	return text
+}
+
+// identPlaceholderInLaterLiteral: some string literal contains the exact placeholder text of a quoted
+// identifier that was masked EARLIER in the text (numbering as in MaskStringLiterals).
+func identPlaceholderInLaterLiteral(ms []seg) bool {
+	idx := 0
+	seen := map[string]bool{}
+	var phs []string
+	for _, x := range ms {
+		switch x.kind {
+		case 'i':
+			if !seen[string(x.b)] {
+				seen[string(x.b)] = true
+				phs = append(phs, fmt.Sprintf("__IDENT_%d__", idx))
+				idx++
+			}
+		case 's':
+			for _, p := range phs {
+				if bytes.Contains(x.b, []byte(p)) {
+					return true
+				}
+			}
+			idx++
+		}
+	}
+	return false
+}
+
+// quoteInLiteralBeforeComment: a literal / quoted identifier that precedes the first comment has a
+// quote character inside its body (e.g. $$it's$$, E'it\'s', $t$say "hi$t$).
+func quoteInLiteralBeforeComment(lx []seg) bool {
+	for _, x := range lx {
+		switch x.kind {
+		case 'l', 'b':
+			return false
+		case 's', 'i':
+			if len(x.b) > 2 && bytes.ContainsAny(x.b[1:len(x.b)-1], "'\"") {
+				return true
+			}
+		}
+	}
+	return false
 }
 
 // stripExpect: the text with exactly DuckDB's comments removed (block comment → one space).
@@ -308,6 +384,11 @@ var edge = []string{
 	"SELECT 1 AS a$$x$, 2 AS y", "SELECT 1 AS éE'a' , 2 AS y", "SELECT 1$$a$$", "SELECT $é$a$é$ AS x", "SELECT 1e'a' AS x",
 	"SELECT 1 -- c\r, 2 AS j", "SELECT 1 /* a /* b */ AS x, 2 AS y */", "SELECT 1 /* a */b", "SELECT 1 /* a */ b", "SELECT (1 /*c*/)",
 	"__STR_0__ 'a'", "__STR_0'a'", "\"x\" 'a'IDENT_0__", "'a'STR_2'b' 'c'", "\"x\" 'a'IDENT_0'b'", "'a' __STR_0__", "\"a\" \"a\" \"b\" \"a\"",
+	// an identifier placeholder spelled inside a LATER literal: safe because masks are restored first-to-last
+	"SELECT \"a\", '__IDENT_0__'", "SELECT \"a\", $$__IDENT_0__$$, \"a\"", "SELECT 'x', \"b\", E'__IDENT_1__ __STR_0__'", "\"a\" \"b\" '__IDENT_1____IDENT_0__'",
+	// complete literal with an unpaired quote in its body, then the FIRST comment of the text
+	"SELECT $$it's$$ -- c", "SELECT $t$a'b$t$ /* c */ FROM t", "SELECT $$say \"hi$$ -- x", "SELECT E'it\\'s' -- c; DROP", "SELECT $$a\"b'c$$ /* x.y */ FROM t -- z",
+	"SELECT \"a'b\" -- c", "SELECT 'a\"b' /* c */",
 	// repeated quoted identifiers: identical ones share a placeholder, case variants must not
 	"SELECT \"Host\" AS \"host\"", "SELECT \"host\", \"host\", \"Host\", \"HOST\" FROM \"T\" JOIN \"t\"",
 	"WITH \"x-Y\" AS (SELECT 1) SELECT * FROM \"x-y\", \"x-Y\"", "SELECT \"é\", \"É\", \"é\"", "SELECT \"ñandú\" AS \"ÑANDÚ\"",
